@@ -28,6 +28,8 @@ type upProc struct {
 	Signal     int      `json:"signal,omitempty"`
 	Deps       []string `json:"deps,omitempty"`
 	Disabled   bool     `json:"disabled,omitempty"`
+	Mode       string   `json:"mode,omitempty"`     // "" long-running | "restarting" (exits, restart always) | "pending" (waits for a dependency that never completes)
+	Replicas   int      `json:"replicas,omitempty"` // replicated processes are only kept or removed, never mutated
 }
 
 type upSpec struct {
@@ -40,9 +42,13 @@ type upSpec struct {
 func upYAML(procs []upProc, worldID int) string {
 	var b strings.Builder
 	b.WriteString("version: \"0.5\"\nprocesses:\n")
+	fmt.Fprintf(&b, "  anchor:\n    command: %s\n", yq(sim.FormatCommand(sim.Script{W: worldID, RunMs: []int{-1}, Tag: "anchor"}, "")))
 	for _, p := range procs {
 		fmt.Fprintf(&b, "  %s:\n", p.Name)
 		script := sim.Script{W: worldID, RunMs: []int{-1}, Tag: p.Tag}
+		if p.Mode == "restarting" {
+			script.RunMs, script.Exits = []int{3}, []int{1}
+		}
 		if p.Exe == "" {
 			fmt.Fprintf(&b, "    command: %s\n", yq(sim.FormatCommand(script, "")))
 		} else {
@@ -53,6 +59,9 @@ func upYAML(procs []upProc, worldID int) string {
 		}
 		if p.Disabled {
 			b.WriteString("    disabled: true\n")
+		}
+		if p.Replicas > 1 {
+			fmt.Fprintf(&b, "    replicas: %d\n", p.Replicas)
 		}
 		if p.Restart != "" || p.Backoff != 0 {
 			b.WriteString("    availability:\n")
@@ -75,10 +84,13 @@ func upYAML(procs []upProc, worldID int) string {
 				fmt.Fprintf(&b, "      - %s\n", yq(e))
 			}
 		}
-		if len(p.Deps) > 0 {
+		if len(p.Deps) > 0 || p.Mode == "pending" {
 			b.WriteString("    depends_on:\n")
 			for _, d := range p.Deps {
 				fmt.Fprintf(&b, "      %s:\n        condition: process_started\n", d)
+			}
+			if p.Mode == "pending" {
+				b.WriteString("      anchor:\n        condition: process_completed\n")
 			}
 		}
 	}
@@ -108,9 +120,23 @@ func genUpSpec(rng *rand.Rand, i int) upSpec {
 			p.ProbeCmd = "true"
 		}
 		if k > 0 && rng.Intn(3) == 0 {
-			p.Deps = []string{names[rng.Intn(k)]}
+			// only long-running processes are dependency targets
+			if d := cur[rng.Intn(k)]; d.Mode == "" {
+				p.Deps = []string{d.Name}
+			}
+		}
+		if i%3 == 1 {
+			switch rng.Intn(4) {
+			case 0:
+				p.Mode, p.Restart, p.Deps = "restarting", "always", nil
+			case 1:
+				p.Mode = "pending"
+			}
 		}
 		cur = append(cur, p)
+	}
+	if i%5 == 3 {
+		cur = append(cur, upProc{Name: "ur", Tag: "v0", Replicas: 2 + rng.Intn(2)})
 	}
 	sp.Versions = append(sp.Versions, cur)
 	updates := 1 + rng.Intn(3)
@@ -129,6 +155,9 @@ func genUpSpec(rng *rand.Rand, i int) upSpec {
 			action := rng.Intn(10)
 			if i%4 == 0 {
 				action = 3 + rng.Intn(7) // one-field-at-a-time sensitivity runs: never remove
+			}
+			if p.Replicas > 1 && action >= 1 {
+				action = 1 // kept as it is
 			}
 			if action == 0 && len(cur) > 1 {
 				// removed - unless something still depends on it
@@ -169,7 +198,9 @@ func genUpSpec(rng *rand.Rand, i int) upSpec {
 						q.WorkingDir = "/tmp"
 					}
 				case "restart":
-					if q.Restart == "on_failure" {
+					if q.Mode == "restarting" {
+						did = false
+					} else if q.Restart == "on_failure" {
 						q.Restart = "always"
 					} else {
 						q.Restart = "on_failure"
@@ -197,7 +228,7 @@ func genUpSpec(rng *rand.Rand, i int) upSpec {
 								has = true
 							}
 						}
-						if !has && o.Name < q.Name {
+						if !has && o.Name < q.Name && o.Mode == "" {
 							q.Deps = append(q.Deps, o.Name)
 							did = true
 							break
@@ -260,6 +291,36 @@ func procMap(ps []upProc) map[string]*upProc {
 	return m
 }
 
+// instances expands a version into replica name -> process
+func instances(ps []upProc) map[string]*upProc {
+	m := map[string]*upProc{}
+	for i := range ps {
+		n := ps[i].Replicas
+		if n < 1 {
+			n = 1
+		}
+		for k := 0; k < n; k++ {
+			m[refReplicaName(ps[i].Name, n, k)] = &ps[i]
+		}
+	}
+	return m
+}
+
+func steadyAlive(ps []upProc) int {
+	n := 1 // the anchor
+	for _, p := range ps {
+		if p.Disabled || p.Mode != "" {
+			continue
+		}
+		k := p.Replicas
+		if k < 1 {
+			k = 1
+		}
+		n += k
+	}
+	return n
+}
+
 func runUpdate(c fw.Case) fw.Result {
 	var sp upSpec
 	c.Params(&sp)
@@ -283,19 +344,33 @@ func runUpdate(c fw.Case) fw.Result {
 	}
 	defer env.Cleanup()
 	env.Start()
-	enabled := func(ps []upProc) int {
-		n := 0
+	restarting := func(ps []upProc) []string {
+		var out []string
 		for _, p := range ps {
-			if !p.Disabled {
-				n++
+			if p.Mode == "restarting" && !p.Disabled {
+				out = append(out, p.Name)
 			}
 		}
-		return n
+		return out
 	}
-	waitAlive := func(n int) bool {
-		return w.WaitFor(5*time.Second, func(v *sim.WorldView) bool { return v.AliveTotal() == n })
+	// steady state: the long-running commands are alive (the restarting ones come and go)
+	waitSteady := func(ps []upProc) bool {
+		want := steadyAlive(ps)
+		rs := map[string]bool{}
+		for _, n := range restarting(ps) {
+			rs[n] = true
+		}
+		return w.WaitFor(5*time.Second, func(v *sim.WorldView) bool {
+			n := 0
+			for _, a := range aliveNamesView(v, w) {
+				if !rs[a] {
+					n++
+				}
+			}
+			return n == want
+		})
 	}
-	if !waitAlive(enabled(sp.Versions[0])) {
+	if !waitSteady(sp.Versions[0]) {
 		r.Inconclusive = "initial project did not come up"
 		r.Dirty = true
 		return r
@@ -306,12 +381,17 @@ func runUpdate(c fw.Case) fw.Result {
 		defer api.close()
 	}
 	for u := 1; u < len(sp.Versions); u++ {
-		oldV, newV := procMap(sp.Versions[u-1]), procMap(sp.Versions[u])
+		oldV, newV := instances(sp.Versions[u-1]), instances(sp.Versions[u])
 		f, _ := sim.WriteTemp(dir, fmt.Sprintf("v%d.yaml", u), upYAML(sp.Versions[u], w.ID))
 		prj, err := loadOnce([]string{f})
 		if err != nil {
 			r.Inconclusive = fmt.Sprintf("load of version %d: %v", u, err)
 			break
+		}
+		// restarting processes: let them go through at least one more cycle first
+		for _, n := range restarting(sp.Versions[u-1]) {
+			have := w.Launches(n)
+			w.WaitFor(2*time.Second, func(v *sim.WorldView) bool { return v.Launches(n) > have })
 		}
 		nBefore := len(w.Events())
 		var status map[string]string
@@ -324,13 +404,19 @@ func runUpdate(c fw.Case) fw.Result {
 			}
 			return e
 		})
+		retSeq := len(w.Events())
 		if callErr != nil {
 			r.Add("C14", "update-error", "update %d failed: %v (status %v)", u, callErr, status)
 			break
 		}
-		if !waitAlive(enabled(sp.Versions[u])) {
-			r.Add("C14", "live-commands", "update %d (%v): %d commands alive afterwards, the new configuration has %d enabled processes", u, sp.Fields[u-1], w.AliveCount(), enabled(sp.Versions[u]))
+		if !waitSteady(sp.Versions[u]) {
+			r.Add("C14", "live-commands", "update %d (%v): live long-running commands %v, the new configuration has %d", u, sp.Fields[u-1], w.AliveNames(), steadyAlive(sp.Versions[u]))
 			break
+		}
+		// new restarting / pending instances settle: give restarting ones a cycle
+		for _, n := range restarting(sp.Versions[u]) {
+			have := w.Launches(n)
+			w.WaitFor(2*time.Second, func(v *sim.WorldView) bool { return v.Launches(n) > have })
 		}
 		// expected status map
 		want := map[string]string{}
@@ -338,12 +424,13 @@ func runUpdate(c fw.Case) fw.Result {
 		for _, n := range sp.Changed[u-1] {
 			changed[n] = true
 		}
-		for n := range newV {
-			if _, ok := oldV[n]; !ok {
+		for n, np := range newV {
+			op, ok := oldV[n]
+			if !ok {
 				want[n] = types.ProcessUpdateAdded
-			} else if changed[n] || fmt.Sprint(newV[n].Deps) != fmt.Sprint(oldV[n].Deps) {
+			} else if changed[np.Name] || fmt.Sprint(np.Deps) != fmt.Sprint(op.Deps) {
 				want[n] = types.ProcessUpdateUpdated
-				changed[n] = true
+				changed[np.Name] = true
 			}
 		}
 		for n := range oldV {
@@ -375,7 +462,7 @@ func runUpdate(c fw.Case) fw.Result {
 		}
 		// configured set
 		names, _ := env.Runner.GetLexicographicProcessNames()
-		var wantNames []string
+		wantNames := []string{"anchor"}
 		for n := range newV {
 			wantNames = append(wantNames, n)
 		}
@@ -383,46 +470,57 @@ func runUpdate(c fw.Case) fw.Result {
 		if strings.Join(names, ",") != strings.Join(wantNames, ",") {
 			r.Add("C14", "configured-set", "update %d: configured processes %v, expected %v", u, names, wantNames)
 		}
-		// events during the update
-		delta := w.Events()[nBefore:]
+		// events since the update was issued
+		all := w.Events()
+		delta := all[nBefore:]
 		launched := map[string]*sim.Event{}
 		signalled := map[string]bool{}
+		lateOldLaunch := map[string]int{}
 		for k := range delta {
 			e := &delta[k]
 			switch e.Kind {
 			case sim.EvLaunch:
 				launched[e.Proc] = e
+				if op, ok := oldV[e.Proc]; ok && e.Seq >= retSeq && e.Str == op.Tag && (newV[e.Proc] == nil || newV[e.Proc].Tag != op.Tag) {
+					lateOldLaunch[e.Proc]++
+				}
 			case sim.EvSignal:
 				signalled[e.Proc] = true
 			}
+		}
+		if launched["anchor"] != nil || signalled["anchor"] {
+			r.Add("C14", "unchanged-disturbed", "update %d: the untouched process 'anchor' was signalled or relaunched", u)
 		}
 		for n, np := range newV {
 			op, existed := oldV[n]
 			switch {
 			case !existed:
-				if !np.Disabled && launched[n] == nil {
+				if !np.Disabled && np.Mode != "pending" && launched[n] == nil {
 					r.Add("C14", "added-not-launched", "update %d: new process %s was not launched", u, n)
 				}
-			case changed[n]:
-				if !op.Disabled && !signalled[n] {
+			case changed[np.Name]:
+				if !op.Disabled && op.Mode == "" && !signalled[n] {
 					r.Add("C14", "changed-not-stopped", "update %d (%v): %s changed but its old instance was not signalled", u, sp.Fields[u-1], n)
 				}
-				if !np.Disabled && launched[n] == nil {
+				if !np.Disabled && np.Mode != "pending" && launched[n] == nil {
 					r.Add("C14", "changed-not-relaunched", "update %d (%v): %s changed but no new instance was launched", u, sp.Fields[u-1], n)
 				}
+				if lateOldLaunch[n] > 0 {
+					r.Add("C14", "old-instance-still-launching", "update %d (%v): the old instance of %s launched its old command %d more times after the update returned", u, sp.Fields[u-1], n, lateOldLaunch[n])
+				}
 			default:
-				if launched[n] != nil || signalled[n] {
+				if np.Mode == "" && (launched[n] != nil || signalled[n]) {
 					r.Add("C14", "unchanged-disturbed", "update %d (%v): %s is unchanged but was %s", u, sp.Fields[u-1], n, map[bool]string{true: "relaunched", false: "signalled"}[launched[n] != nil])
 				}
 			}
-			// the new launch uses the new configuration
-			if e := launched[n]; e != nil {
-				if e.Str != np.Tag {
-					r.Add("C14", "launch-old-args", "update %d: %s launched with argument version %q, new configuration has %q", u, n, e.Str, np.Tag)
-				}
+			// the new launch uses the new configuration (only judged for launches of the new version)
+			if e := launched[n]; e != nil && (changed[np.Name] || !existed) && e.Str == np.Tag || e != nil && !existed {
 				wantExe := "bash"
 				if np.Exe != "" {
 					wantExe = np.Exe
+				}
+				if e.Str != np.Tag {
+					r.Add("C14", "launch-old-args", "update %d: %s launched with argument version %q, new configuration has %q", u, n, e.Str, np.Tag)
 				}
 				if len(e.Argv) == 0 || e.Argv[0] != wantExe {
 					r.Add("C14", "launch-old-executable", "update %d: %s launched with executable %q, new configuration has %q", u, n, e.Argv[0], wantExe)
@@ -436,13 +534,15 @@ func runUpdate(c fw.Case) fw.Result {
 						r.Add("C14", "launch-old-env", "update %d: %s launched with %s=%q, new configuration has %q", u, n, k, eff[k], v)
 					}
 				}
-				for k := range envMap(op0(oldV[n]).Env) {
+				for k := range envMap(op0(op).Env) {
 					if _, still := envMap(np.Env)[k]; !still {
 						if _, present := eff[k]; present {
 							r.Add("C14", "launch-old-env", "update %d: %s launched with %s which the new configuration no longer defines", u, n, k)
 						}
 					}
 				}
+			} else if e != nil && changed[np.Name] && np.Mode == "" && e.Str != np.Tag {
+				r.Add("C14", "launch-old-args", "update %d: %s launched with argument version %q, new configuration has %q", u, n, e.Str, np.Tag)
 			}
 			// stored configuration
 			if info, err := env.Runner.GetProcessInfo(n); err != nil {
@@ -458,20 +558,40 @@ func runUpdate(c fw.Case) fw.Result {
 			if _, ok := newV[n]; ok {
 				continue
 			}
-			if !op.Disabled && !signalled[n] {
+			if !op.Disabled && op.Mode == "" && !signalled[n] {
 				r.Add("C14", "removed-not-stopped", "update %d: removed process %s was not signalled", u, n)
 			}
-			if w.IsAlive(n) {
+			if op.Mode == "" && w.IsAlive(n) {
 				r.Add("C14", "removed-still-alive", "update %d: removed process %s is still alive", u, n)
+			}
+			// a removed restarting process must not launch again after the update returned
+			late := 0
+			for k := range delta {
+				if delta[k].Kind == sim.EvLaunch && delta[k].Proc == n && delta[k].Seq >= retSeq {
+					late++
+				}
+			}
+			if late > 0 {
+				r.Add("C14", "removed-still-launching", "update %d: removed process %s launched its command %d more times after the update returned", u, n, late)
 			}
 		}
 		if len(r.Findings) > 0 {
 			break
 		}
 	}
-	_ = env.Call("shutdown", "", 0, func() error { return env.Runner.ShutDownProject() })
-	if out := env.WaitRun(4*time.Second, 30*time.Second); out != sim.RunReturned {
-		r.Count("run_not_returned_after_updates", 1)
+	sd := make(chan struct{})
+	go func() {
+		_ = env.Call("shutdown", "", 0, func() error { return env.Runner.ShutDownProject() })
+		close(sd)
+	}()
+	select {
+	case <-sd:
+		if out := env.WaitRun(4*time.Second, 30*time.Second); out != sim.RunReturned {
+			r.Count("run_not_returned_after_updates", 1)
+			r.Dirty = true
+		}
+	case <-time.After(20 * time.Second):
+		r.Add("C14", "shutdown-blocked-after-update", "ShutDownProject did not return after the updates (an instance that is no longer reachable keeps running)")
 		r.Dirty = true
 	}
 	if len(r.Findings) > 0 {
@@ -487,12 +607,14 @@ func runUpdate(c fw.Case) fw.Result {
 		r.Witness = append(wt, ev...)
 	}
 	r.NonTrivial = len(sp.Versions) > 1
-	r.Sig = sim.Hash(fmt.Sprint(sp.Fields, len(sp.Versions[0])))
+	r.Sig = sim.Hash(fmt.Sprint(sp.Fields, len(sp.Versions[0]), sp.Versions[0]))
 	if c.Idx < 2 {
 		r.Sample = map[string]any{"mutations": sp.Fields}
 	}
 	return r
 }
+
+func aliveNamesView(v *sim.WorldView, w *sim.World) []string { return v.AliveNames() }
 
 func op0(p *upProc) *upProc {
 	if p == nil {
